@@ -7,6 +7,7 @@ package simos
 import (
 	"io"
 	"runtime"
+	"sort"
 	"sync"
 	"sync/atomic"
 
@@ -141,3 +142,37 @@ func Exit(code int) {
 	}
 	runtime.Goexit()
 }
+
+// The environment of the simulated process: what an interactive shell typically exports. LINES
+// and COLUMNS are there on purpose (many shells export them, and they go stale at the first
+// resize): the size of the window is what the terminal says, not what the environment says.
+var environment = map[string]string{
+	"TERM": "xterm-256color", "LINES": "40", "COLUMNS": "132", "HOME": "/home/user", "LANG": "en_US.UTF-8",
+	"SHELL": "/bin/sh", "USER": "user", "PATH": "/sim/bin", "NO_COLOR": "", "COLORTERM": "truecolor",
+}
+
+func Getenv(key string) string { return environment[key] }
+
+func LookupEnv(key string) (string, bool) {
+	v, ok := environment[key]
+	return v, ok
+}
+
+func Environ() []string {
+	keys := make([]string, 0, len(environment))
+	for k := range environment {
+		keys = append(keys, k)
+	}
+	sort.Strings(keys)
+	out := make([]string, len(keys))
+	for i, k := range keys {
+		out[i] = k + "=" + environment[k]
+	}
+	return out
+}
+
+func Setenv(key, value string) error { return nil }
+
+func Getpid() int { return 4242 }
+
+func Hostname() (string, error) { return "sim", nil }
